@@ -46,6 +46,10 @@ CLAIMED['C05'] = dict(engine='E5', technique='Coq: compositing algebra for group
     text='Partial. Proved: source-over algebra (associativity; opaque / transparent / single-child groups flatten with the opacity multiplied in; a translucent group with overlapping children must be kept — counterexample), and for the model of _inherit_attrib that each handler touches only its attribute and copied properties resolve to the own value else the context (nearest ancestor). Not a theorem: that the whole pipeline realises this for every document — decided on every run by rendering source and converted documents with an independent spec-side renderer at sample points. Two recorded findings (root opacity, unclamped out-of-range shape opacity).',
     note='Inherit.v hand model validated on 1500/30000 random attribute maps against the real helpers; dyadic opacities; renderer is trusted spec-side code.',
     design='§7 C05')
+CLAIMED['C02'] = dict(engine='E5', technique='Coq proof over R of transform accumulation along ancestor chains of any depth, use and nested-svg transforms (arithmetic regenerated from source); exact differential run of depth_first contexts / resolve_use / resolve_nested_svgs; end-to-end spec-side renderer judge',
+    text='Partial. Proved for trees of any depth: the context transform maps through own transform first, ancestors after (parent last); use = translate(x,y) then its transform; nested svg = viewport transform then own transform. Not a theorem: z-order preservation, shape-to-path (C09 judge) and the whole pipeline — decided on every run by rendering source and converted documents (structural grammar incl. rotate/skew, nested use, all alignments) with the independent renderer. One fix commit (viewBox equal to viewport).',
+    note='Structure.v hand model validated exactly against depth_first()/resolve_use()/resolve_nested_svgs(); renderer trusted spec-side code; Skia applies the matrices (engine contract).',
+    design='§7 C02')
 PENDING = {}
 
 def main():
